@@ -82,6 +82,61 @@ Fixpoint dedup_z (seen : list Z) (l : list Z) : list Z :=
 Fixpoint lookup {B} (k : text) (m : list (text * B)) : option B :=
   match m with [] => None | (k', v) :: r => if text_eqb k k' then Some v else lookup k r end.
 
+(* ---------------------------------------------------------------- XSD builtins *)
+(** "http://www.w3.org/2001/XMLSchema" *)
+Definition xsd_ns : text := [104; 116; 116; 112; 58; 47; 47; 119; 119; 119; 46; 119; 51; 46; 111; 114; 103; 47; 50; 48; 48; 49; 47; 88; 77; 76; 83; 99; 104; 101; 109; 97].
+(** the built-in datatypes of XML Schema part 2 plus anyType / anySimpleType (the
+    oracle of harness/c07.py resolves xs: references against the same list; the
+    harness compares the two lists on every run) *)
+Definition xsd_builtins : list text :=
+  [ [115; 116; 114; 105; 110; 103] (* string *);
+    [98; 111; 111; 108; 101; 97; 110] (* boolean *);
+    [100; 101; 99; 105; 109; 97; 108] (* decimal *);
+    [102; 108; 111; 97; 116] (* float *);
+    [100; 111; 117; 98; 108; 101] (* double *);
+    [100; 117; 114; 97; 116; 105; 111; 110] (* duration *);
+    [100; 97; 116; 101; 84; 105; 109; 101] (* dateTime *);
+    [116; 105; 109; 101] (* time *);
+    [100; 97; 116; 101] (* date *);
+    [103; 89; 101; 97; 114; 77; 111; 110; 116; 104] (* gYearMonth *);
+    [103; 89; 101; 97; 114] (* gYear *);
+    [103; 77; 111; 110; 116; 104; 68; 97; 121] (* gMonthDay *);
+    [103; 68; 97; 121] (* gDay *);
+    [103; 77; 111; 110; 116; 104] (* gMonth *);
+    [104; 101; 120; 66; 105; 110; 97; 114; 121] (* hexBinary *);
+    [98; 97; 115; 101; 54; 52; 66; 105; 110; 97; 114; 121] (* base64Binary *);
+    [97; 110; 121; 85; 82; 73] (* anyURI *);
+    [81; 78; 97; 109; 101] (* QName *);
+    [78; 79; 84; 65; 84; 73; 79; 78] (* NOTATION *);
+    [110; 111; 114; 109; 97; 108; 105; 122; 101; 100; 83; 116; 114; 105; 110; 103] (* normalizedString *);
+    [116; 111; 107; 101; 110] (* token *);
+    [108; 97; 110; 103; 117; 97; 103; 101] (* language *);
+    [78; 77; 84; 79; 75; 69; 78] (* NMTOKEN *);
+    [78; 77; 84; 79; 75; 69; 78; 83] (* NMTOKENS *);
+    [78; 97; 109; 101] (* Name *);
+    [78; 67; 78; 97; 109; 101] (* NCName *);
+    [73; 68] (* ID *);
+    [73; 68; 82; 69; 70] (* IDREF *);
+    [73; 68; 82; 69; 70; 83] (* IDREFS *);
+    [69; 78; 84; 73; 84; 89] (* ENTITY *);
+    [69; 78; 84; 73; 84; 73; 69; 83] (* ENTITIES *);
+    [105; 110; 116; 101; 103; 101; 114] (* integer *);
+    [110; 111; 110; 80; 111; 115; 105; 116; 105; 118; 101; 73; 110; 116; 101; 103; 101; 114] (* nonPositiveInteger *);
+    [110; 101; 103; 97; 116; 105; 118; 101; 73; 110; 116; 101; 103; 101; 114] (* negativeInteger *);
+    [108; 111; 110; 103] (* long *);
+    [105; 110; 116] (* int *);
+    [115; 104; 111; 114; 116] (* short *);
+    [98; 121; 116; 101] (* byte *);
+    [110; 111; 110; 78; 101; 103; 97; 116; 105; 118; 101; 73; 110; 116; 101; 103; 101; 114] (* nonNegativeInteger *);
+    [117; 110; 115; 105; 103; 110; 101; 100; 76; 111; 110; 103] (* unsignedLong *);
+    [117; 110; 115; 105; 103; 110; 101; 100; 73; 110; 116] (* unsignedInt *);
+    [117; 110; 115; 105; 103; 110; 101; 100; 83; 104; 111; 114; 116] (* unsignedShort *);
+    [117; 110; 115; 105; 103; 110; 101; 100; 66; 121; 116; 101] (* unsignedByte *);
+    [112; 111; 115; 105; 116; 105; 118; 101; 73; 110; 116; 101; 103; 101; 114] (* positiveInteger *);
+    [97; 110; 121; 84; 121; 112; 101] (* anyType *);
+    [97; 110; 121; 83; 105; 109; 112; 108; 101; 84; 121; 112; 101] (* anySimpleType *) ].
+Definition builtinb (q : text * text) : bool := text_eqb (fst q) xsd_ns && memt (snd q) xsd_builtins.
+
 (* ---------------------------------------------------------------- get_namespace_prefix *)
 Record pstate := { prefmap : list (text * text);   (* namespace -> prefix *)
                    nsmap : list (text * text);     (* prefix -> namespace *)
@@ -535,3 +590,40 @@ Definition render (perm : list Z -> list Z) (a : snap) : res (list text * list (
   dor st1 <- alloc_all (a_pst a) (d_trace1 d);
   dor st2 <- alloc_all st1 (d_trace2 d);
   ROk (tok_doc (prefmap st2) d, nsmap st1).
+
+(* ---------------------------------------------------------------- what populate_interface leaves behind *)
+(** Decidable form of the hypothesis of the schema-closure theorem
+    (SchemaProofs.wf_snap): the facts about the populated Interface that
+    Interface.add_class / add_method establish and that the emitters rely on.
+    The harness evaluates it on every generated snapshot. *)
+Definition reg_keys (a : snap) : list Z := keys (data0 (a_deps a)).
+Definition is_complex (c : cls) : bool := match c_kind c with KComplex => true | KPlain => false end.
+
+(** some registered complex class publishes the type [q] *)
+Definition type_regb (a : snap) (q : qn) : bool :=
+  builtinb q ||
+  existsb (fun id => match find_cls (a_classes a) id with
+                     | Some c => is_complex c && text_eqb (c_ns c) (fst q) && text_eqb (c_tn c) (snd q)
+                     | None => false
+                     end) (reg_keys a).
+(** some registered complex class publishes the element [q] *)
+Definition elem_regb (a : snap) (q : qn) : bool :=
+  existsb (fun id => match find_cls (a_classes a) id with
+                     | Some c => is_complex c && text_eqb (c_ens c) (fst q) && text_eqb (c_ename c) (snd q)
+                     | None => false
+                     end) (reg_keys a).
+
+Fixpoint nodupz (l : list Z) : bool :=
+  match l with [] => true | x :: r => negb (memz x r) && nodupz r end.
+Definition opt_list {A} (o : option (list A)) : list A := match o with Some l => l | None => [] end.
+(** headers and faults of all methods *)
+Definition meth_hf (a : snap) : list msg :=
+  flat_map (fun m => opt_list (me_inh m) ++ opt_list (me_outh m) ++ me_faults m) (all_meths a).
+
+Definition wf_snapb (a : snap) : bool :=
+  nodupz (reg_keys a)
+  && forallb (fun c => is_complex c || builtinb (c_ns c, c_tn c)) (a_classes a)
+  && forallb (fun c => match c_base c with Some b => memz b (reg_keys a) | None => true end) (a_classes a)
+  && forallb (fun x => type_regb a (m_tns x, m_tn x)
+                       && (text_eqb (m_ens x) (a_tns a) || elem_regb a (m_ens x, m_ename x))) (meth_io a)
+  && forallb (fun x => elem_regb a (m_ens x, m_ename x)) (meth_hf a).
